@@ -21,16 +21,17 @@ type cmpSite struct {
 	p      Poly
 	text   string
 	lt     types.Type
-	pa     Poly            // the same polynomial with locals/parameters named by their type (alpha-invariant)
-	pr     Poly            // the named polynomial with single-definition locals substituted (hoisted or inlined locals are immaterial)
-	pra    Poly            // the type-named polynomial with locals substituted (renamed AND moved)
-	from   string          // the function the comparison is written in, when it was reached through an unexported helper
-	uses   map[string]bool // identifiers the comparison depends on, directly or through the single-definition locals it mentions
-	full   bool            // the condition of a plain counting loop `for i := 0; i < E; i++` (the same as ranging over E)
-	tn, en map[string]bool // fields, functions and constants mentioned by the branch taken when the governing `if` holds / does not hold
-	negc   bool            // the comparison stands under a `!` in that condition
-	mult   int             // for a comparison read through a helper: at how many call sites of the helper it reads the same
-	rop    token.Token     // the operator under which the path is REFUSED (error / false / non-ACCEPT / continue / break), when the comparison governs such a branch; 0 otherwise
+	pa     Poly              // the same polynomial with locals/parameters named by their type (alpha-invariant)
+	pr     Poly              // the named polynomial with single-definition locals substituted (hoisted or inlined locals are immaterial)
+	pra    Poly              // the type-named polynomial with locals substituted (renamed AND moved)
+	from   string            // the function the comparison is written in, when it was reached through an unexported helper
+	uses   map[string]bool   // identifiers the comparison depends on, directly or through the single-definition locals it mentions
+	full   bool              // the condition of a plain counting loop `for i := 0; i < E; i++` (the same as ranging over E)
+	tn, en map[string]bool   // fields, functions and constants mentioned by the branch taken when the governing `if` holds / does not hold
+	negc   bool              // the comparison stands under a `!` in that condition
+	alias  map[string]string // operand written as a local -> the single value that local names (resolved)
+	mult   int               // for a comparison read through a helper: at how many call sites of the helper it reads the same
+	rop    token.Token       // the operator under which the path is REFUSED (error / false / non-ACCEPT / continue / break), when the comparison governs such a branch; 0 otherwise
 }
 
 func isUnsignedExpr(info *types.Info, e ast.Expr) bool {
@@ -223,13 +224,50 @@ func cmpsIn(pk *packages.Package, fd *ast.FuncDecl, fn string, subst map[types.O
 			}
 		}
 		site.tn, site.en, site.negc = branchNamesOf(info, fparents, be)
+		// a local that merely names one value (m := spec.MAX…; x != m): the comparison read with that one local spelled
+		// out and the others as written
+		ast.Inspect(be, func(k ast.Node) bool {
+			id, ok := k.(*ast.Ident)
+			if !ok {
+				return true
+			}
+			if _, isAtom := site.p[id.Name]; !isAtom {
+				return true
+			}
+			if rp, ok := exprPoly(info, id, fdefs, nil, 0); ok && len(rp) == 1 {
+				for a, cf := range rp {
+					if a != "" && a != id.Name && cf == 1 {
+						if site.alias == nil {
+							site.alias = map[string]string{}
+						}
+						site.alias[id.Name] = a
+					}
+				}
+			}
+			return true
+		})
 		out = append(out, site)
 		return true
 	})
 	return out
 }
 
+var cmpMemo = map[*Prog]map[string][]cmpSite{}
+var cmpDeclsMemo = map[*Prog]map[string]cmpDecl{}
+
+// collectCmps is computed once per loaded program (several rules read it).
 func collectCmps(p *Prog) map[string][]cmpSite {
+	if m, ok := cmpMemo[p]; ok {
+		cmpDecls = cmpDeclsMemo[p]
+		return m
+	}
+	m := collectCmps1(p)
+	cmpMemo[p] = m
+	cmpDeclsMemo[p] = cmpDecls
+	return m
+}
+
+func collectCmps1(p *Prog) map[string][]cmpSite {
 	polyInline = inlinableFuncs(p)
 	polyInlineNamed = true
 	defer func() { polyInline, polyInlineNamed = nil, false }()
@@ -1108,7 +1146,31 @@ func cmpAbsMatch(fn string, entries []cmpSpec, atoms []string, sites []cmpSite, 
 // cmpForm: the form of the comparison (as written, or with single-definition locals substituted) that mentions
 // exactly the given operands.
 func cmpForm(s cmpSite, res []*regexp.Regexp) (Poly, bool) {
-	for _, form := range []Poly{s.p, s.pr} {
+	forms := []Poly{s.p, s.pr}
+	// each naming local spelled out on its own, and all of them together
+	if len(s.alias) > 0 {
+		all := Poly{}
+		for a, cf := range s.p {
+			if to, ok := s.alias[a]; ok {
+				all[to] += cf
+			} else {
+				all[a] += cf
+			}
+		}
+		forms = append(forms, all)
+		for from, to := range s.alias {
+			one := Poly{}
+			for a, cf := range s.p {
+				if a == from {
+					one[to] += cf
+				} else {
+					one[a] += cf
+				}
+			}
+			forms = append(forms, one)
+		}
+	}
+	for _, form := range forms {
 		if form == nil {
 			continue
 		}
@@ -1544,10 +1606,19 @@ func countingLoop(info *types.Info, parents map[ast.Node]ast.Node, be *ast.Binar
 		break
 	}
 	f, ok := parents[top].(*ast.ForStmt)
-	if !ok || f.Cond != top || be.Op != token.LSS {
+	if !ok || f.Cond != top {
 		return false
 	}
-	iv, ok := ast.Unparen(be.X).(*ast.Ident)
+	// i < n, or n > i
+	var iv *ast.Ident
+	switch be.Op {
+	case token.LSS:
+		iv, ok = ast.Unparen(be.X).(*ast.Ident)
+	case token.GTR:
+		iv, ok = ast.Unparen(be.Y).(*ast.Ident)
+	default:
+		return false
+	}
 	if !ok {
 		return false
 	}
@@ -1561,11 +1632,25 @@ func countingLoop(info *types.Info, parents map[ast.Node]ast.Node, be *ast.Binar
 	if tv, ok := info.Types[as.Rhs[0]]; !ok || tv.Value == nil || tv.Value.ExactString() != "0" {
 		return false
 	}
-	inc, ok := f.Post.(*ast.IncDecStmt)
-	if !ok || inc.Tok != token.INC {
-		return false
-	}
-	if id, ok := ast.Unparen(inc.X).(*ast.Ident); !ok || id.Name != iv.Name {
+	switch post := f.Post.(type) {
+	case *ast.IncDecStmt:
+		if post.Tok != token.INC {
+			return false
+		}
+		if id, ok := ast.Unparen(post.X).(*ast.Ident); !ok || id.Name != iv.Name {
+			return false
+		}
+	case *ast.AssignStmt:
+		if post.Tok != token.ADD_ASSIGN || len(post.Lhs) != 1 || len(post.Rhs) != 1 {
+			return false
+		}
+		if id, ok := ast.Unparen(post.Lhs[0]).(*ast.Ident); !ok || id.Name != iv.Name {
+			return false
+		}
+		if tv, ok := info.Types[post.Rhs[0]]; !ok || tv.Value == nil || tv.Value.ExactString() != "1" {
+			return false
+		}
+	default:
 		return false
 	}
 	// the counter is not written in the body
@@ -1573,6 +1658,9 @@ func countingLoop(info *types.Info, parents map[ast.Node]ast.Node, be *ast.Binar
 	ast.Inspect(f.Body, func(n ast.Node) bool {
 		switch x := n.(type) {
 		case *ast.AssignStmt:
+			if ast.Node(x) == ast.Node(f.Post) {
+				return true
+			}
 			for _, l := range x.Lhs {
 				if id, ok := ast.Unparen(l).(*ast.Ident); ok && info.ObjectOf(id) == info.ObjectOf(iv) {
 					written = true
